@@ -47,23 +47,23 @@ MANIFEST = {
 # (profile, N, uniq)  -- binding universes (DAGs with at least one shared node)
 GEN = {
     "quick": [("arith", 4, 1), ("stream", 4, 1), ("struct", 4, 1), ("agg", 4, 1), ("aggmap", 5, 1), ("xstream", 4, 1),
-              ("all", 3, 1), ("arith", 3, 0), ("stream", 4, 0)],
+              ("all", 3, 1), ("arith", 3, 0), ("stream", 4, 0), ("aggscan", 7, 1), ("tscan", 5, 1), ("ascan", 5, 1)],
     "thorough": [("arith", 5, 1), ("stream", 5, 1), ("struct", 5, 1), ("agg", 5, 1), ("aggmap", 5, 1), ("xstream", 5, 1),
                  ("xagg", 6, 1), ("all", 4, 1), ("ifadd", 6, 1), ("arith", 4, 0), ("stream", 4, 0), ("agg", 5, 0), ("aggmap", 5, 0),
-                 ("aggmap", 6, 1), ("agg", 6, 1)],
+                 ("aggmap", 6, 1), ("agg", 6, 1), ("aggscan", 8, 1), ("tscan", 6, 1), ("ascan", 6, 1), ("xscan", 6, 1), ("ascan", 5, 0), ("colscan", 7, 1)],
 }
 # abstract renderer, exhaustive (profile, N, uniq)
 MODEL = {
-    "quick": [("arith", 3, 1), ("aggmap", 4, 1), ("ifadd", 4, 1)],
+    "quick": [("arith", 3, 1), ("aggmap", 4, 1), ("ifadd", 4, 1), ("aggscan", 6, 1)],
     "thorough": [("arith", 4, 1), ("stream", 4, 1), ("struct", 4, 1), ("agg", 5, 1), ("aggmap", 5, 1), ("ifadd", 5, 1),
-                 ("xagg", 5, 1), ("xstream", 4, 1), ("all", 3, 1), ("stream", 4, 0)],
+                 ("xagg", 5, 1), ("xstream", 4, 1), ("all", 3, 1), ("stream", 4, 0), ("aggscan", 7, 1), ("tscan", 5, 1), ("xscan", 5, 1)],
 }
 SIM = {"quick": [("all", 7, 60)], "thorough": [("all", 8, 1500), ("aggmap", 8, 1000), ("ifadd", 8, 1000)]}
 MODEL_INVARIANTS = ["DoneOk", "NoCrash", "StackIsPath", "DepthsInRange"]
 MODEL_INVARIANTS_REPAIRED = ["LiftXorInsert", "NoStaleBinding"]     # state invariants that only the repaired print pass has
 SAMPLE_ABOVE = 12500   # a universe with more DAGs than this is sampled (seeded) down to this many; the evidence says which
 CHUNK = 1200
-EXPLICIT = ("xstream", "xagg")      # profiles whose DAGs carry explicit ToStream / ToArray nodes
+EXPLICIT = ("xstream", "xagg", "xscan")      # profiles whose DAGs carry explicit ToStream / ToArray nodes
 
 # witnesses of the renderer defects this check found (specification DAG vocabulary): StreamAgg free-variable
 # bookkeeping (2) and the binding-site confusion of the print pass (crash / stale frame).  They are replayed on the
@@ -86,7 +86,19 @@ W_NESTED_AGG = {"implicit": True, "root": 1, "nodes": [
     {"op": "I32", "k": [], "n": [], "v": 2}, {"op": "StreamAgg", "k": [5, 8], "n": ["x4"], "v": 0},
     {"op": "AggExplode", "k": [6, 7], "n": ["x5"], "v": 0}, {"op": "Ref", "k": [], "n": ["a"], "v": 0},
     {"op": "MakeArray", "k": [3], "n": [], "v": 0}, {"op": "I32", "k": [], "n": [], "v": 2}]}
-WITNESSES = {"w:streamagg-result-uses-outer-var": W_STREAMAGG_FV, "w:nested-streamagg-source-uses-agg-var": W_NESTED_AGG, "w:site-crash": W_SITE_CRASH, "w:site-stale": W_SITE_STALE}
+# one node shared twice inside an aggregator argument and once in a scan argument of the same MatrixMapRows site
+W_AGG2_SCAN1 = {"implicit": True, "root": 1, "nodes": [
+    {"op": "Site", "k": [2], "n": ["mrows"], "v": 0}, {"op": "Add", "k": [3, 7], "n": [], "v": 0},
+    {"op": "AggSum", "k": [4], "n": [], "v": 0}, {"op": "Add", "k": [5, 5], "n": [], "v": 0},
+    {"op": "GetField", "k": [6], "n": ["row_idx"], "v": 0}, {"op": "Ref", "k": [], "n": ["va"], "v": 0},
+    {"op": "ScanSum", "k": [5], "n": [], "v": 0}]}
+W_SCAN2_AGG1 = {"implicit": True, "root": 1, "nodes": [
+    {"op": "Site", "k": [2], "n": ["mrows"], "v": 0}, {"op": "Add", "k": [3, 7], "n": [], "v": 0},
+    {"op": "ScanSum", "k": [4], "n": [], "v": 0}, {"op": "Add", "k": [5, 5], "n": [], "v": 0},
+    {"op": "GetField", "k": [6], "n": ["row_idx"], "v": 0}, {"op": "Ref", "k": [], "n": ["va"], "v": 0},
+    {"op": "AggSum", "k": [5], "n": [], "v": 0}]}
+WITNESSES = {"w:agg-twice-scan-once": W_AGG2_SCAN1, "w:scan-twice-agg-once": W_SCAN2_AGG1,
+             "w:streamagg-result-uses-outer-var": W_STREAMAGG_FV, "w:nested-streamagg-source-uses-agg-var": W_NESTED_AGG, "w:site-crash": W_SITE_CRASH, "w:site-stale": W_SITE_STALE}
 
 
 # ------------------------------------------------------------------------------------------------
@@ -119,10 +131,12 @@ class Renderer:
         if any(dag["nodes"][i - 1]["op"] != "Ref" for i in _cse.shared_nodes(dag)) and not _cse.has_shared_objects(root):
             raise RuntimeError(f"harness: the IR built for {cid} has no shared Python object although the DAG shares a node")
         free = _free_recs(_free_of(dag))
-        return self._render(cid, root, {"nodes": dag["nodes"], "root": dag["root"]}, free, plain)
+        # a binding-site root gets a new-row wrapper from the harness: its inlined side is the plain renderer's text
+        orig = ptab if dag["nodes"][dag["root"] - 1]["op"] == "Site" else {"nodes": dag["nodes"], "root": dag["root"]}
+        return self._render(cid, root, orig, free, plain)
 
     def case_from_expr(self, cid, expr):
-        root = expr._ir
+        root = expr._ir if hasattr(expr, "_ir") else getattr(expr, "_mir", None) or expr._tir
         plain = str(root)
         return self._render(cid, root, _cse.text_to_table(plain), [], plain)
 
@@ -157,7 +171,7 @@ def blame(case, name):
             best[0] = inside
         for pos, c in enumerate(nd["k"]):
             ins = inside
-            if nd["op"] in ("Let", "AggLet") and pos == 0 and _cse.CSE_NAME.match(nd["n"][0]):
+            if nd["op"] in _cse.LET_OPS and pos == 0 and _cse.CSE_NAME.match(nd["n"][0]):
                 ins = _value_head(nodes, c)
             go(c, ins)
 
@@ -179,11 +193,11 @@ def signatures(case, v):
         if p["why"] == "noagg":
             sigs.append("cse:scope:aggregation-outside-agg-context")
         elif p["why"] == "noscan":
-            sigs.append("cse:scope:wrong-context:scan-binding")
+            sigs.append("cse:scope:scan-outside-scan-context")
         elif p["why"] == "wrongscope":
             sigs.append("cse:scope:wrong-context:" + ("lifted-name" if _cse.CSE_NAME.match(x) else "user-var"))
         elif _cse.CSE_NAME.match(x):
-            bound = any(nd["op"] in ("Let", "AggLet") and nd["n"][0] == x for nd in case["rend"]["nodes"])
+            bound = any(nd["op"] in _cse.LET_OPS and nd["n"][0] == x for nd in case["rend"]["nodes"])
             sigs.append("cse:scope:unbound-lifted-name:" + ("bound-elsewhere" if bound else "bound-nowhere"))
         else:
             sigs.append(f"cse:scope:unbound-user-var:lifted={blame(case, x)}")
@@ -241,7 +255,7 @@ def run_model(ctx, wd_root, profile, n, uniq, flags, *, emit=False, simulate=Non
 
 
 def _ty(nd, dag):
-    if not dag.get("implicit", True) and nd["op"] in ("ToStream", "StreamMap", "StreamFilter"):
+    if not dag.get("implicit", True) and nd["op"] in ("ToStream", "StreamMap", "StreamFilter", "StreamAggScan"):
         return "s"
     return "x"
 
@@ -390,7 +404,7 @@ def run(ctx):
                 ctx.add_tlc(res, what)
                 if k[0] == "model" and not res.violations:
                     # vacuity guard (instead of -coverage): the run finished DAGs, and lifted something where sharing exists
-                    if not pairs or not any(nd["op"] in ("Let", "AggLet") and _cse.CSE_NAME.match(nd["n"][0]) for _, o in pairs for nd in o["nodes"]):
+                    if not pairs or not any(nd["op"] in _cse.LET_OPS and _cse.CSE_NAME.match(nd["n"][0]) for _, o in pairs for nd in o["nodes"]):
                         raise RuntimeError(f"vacuous model run {what}: no DAG finished / nothing lifted")
                 for d, o in pairs:     # DAGs the model emitted: render them too (model-vs-code comparison; larger sampled DAGs)
                     key = json.dumps(d["nodes"], sort_keys=True)
